@@ -6,3 +6,8 @@ import TephraProps.C05
 #print axioms Tephra.Props.C05_scan_state_sequential
 #print axioms Tephra.Props.C05_finding_F19
 #print axioms Tephra.Props.C05_needs_final_refusal
+#print axioms Tephra.Props.C05_sublex
+#print axioms Tephra.Props.C05_sublex_scan_state_sequential
+#print axioms Tephra.Props.C05_sublex_syntactic
+#print axioms Tephra.Props.C05_partial_is_an_instance
+#print axioms Tephra.Props.C05_F19_signature_too_narrow
